@@ -171,12 +171,24 @@ class ListModel(list):
             return
         list.__setitem__(self, self._index(key), value)
 
+    @staticmethod
+    def _ssize_t(index):
+        """insert() and pop() convert their index to a C ssize_t: outside that range CPython raises OverflowError (the
+        subscript forms turn the same failure into IndexError, which the out-of-range classes already cover)"""
+        if isinstance(index, SymBool):
+            return
+        if isinstance(index, SymInt) or isinstance(index, int):
+            if index >= 2 ** 63 or index < -2 ** 63:
+                raise OverflowError("Python int too large to convert to C ssize_t")
+
     def insert(self, index, obj):
+        self._ssize_t(index)
         n = len(self)
         c = classify(index, -n, n)
         list.insert(self, c, obj)
 
     def pop(self, index=-1):
+        self._ssize_t(index)
         return list.pop(self, self._index(index))
 
     # factor classes for *=: everything < 1 behaves like 0; larger factors are bounded by the harness
@@ -231,7 +243,7 @@ def selftest(maxlen=5, span=8):
                         e2 = type(e)
                     assert e1 == e2 and ref == list(mod), ("set", n, a, b, c, m)
                     count += 1
-        for i in range(-span, span + 1):
+        for i in list(range(-span, span + 1)) + [2 ** 63 - 1, 2 ** 63, -2 ** 63, -2 ** 63 - 1, 2 ** 70]:
             for opname in ("get", "set", "del", "insert", "pop"):
                 ref = list(base)
                 mod = ListModel(base)
@@ -242,7 +254,7 @@ def selftest(maxlen=5, span=8):
                     elif opname == "del": del ref[i]
                     elif opname == "insert": ref.insert(i, 7)
                     else: r1 = ref.pop(i)
-                except IndexError as e:
+                except (IndexError, OverflowError) as e:
                     e1 = type(e)
                 try:
                     if opname == "get": r2 = mod[i]
@@ -250,7 +262,7 @@ def selftest(maxlen=5, span=8):
                     elif opname == "del": del mod[i]
                     elif opname == "insert": mod.insert(i, 7)
                     else: r2 = mod.pop(i)
-                except IndexError as e:
+                except (IndexError, OverflowError) as e:
                     e2 = type(e)
                 assert (r1, e1, ref) == (r2, e2, list(mod)), (opname, n, i)
                 count += 1
